@@ -235,6 +235,36 @@ def check_prologues(ctx, rep):
         rep.check('C08.P', f"{key}::F3-lineage-count", f['lineage_count_slice'] == ':-1' and f['lineage_count_axis'] == -1, W, f,
                   f"{key}: the number of lineages in each interval must be cumsum(marks)[..., :-1]")
         rep.check('C08.P', f"{key}::F4-choose-2", bool(f['choose2_is_k(k-1)/2']), W, f, f"{key}: the pair count must be k(k−1)/2, found {f['choose2']}")
+        # F7 — event marks that are combined element-wise with a per-interval quantity (the lineage count, C(k,2)) are the marks of the events that END the intervals:
+        # entry i of cumsum(marks)[..., :-1] is the number of lineages in the interval between event i and event i+1, so it belongs to marks[..., 1:], never to marks[..., :-1]
+        MS_, LC_, L2_ = p.names.get('MS'), p.names.get('LC'), p.names.get('L2')
+        per_interval = {x for x in (LC_, L2_) if x}
+        mask_names = {}
+        for st in ast.walk(p.fn):
+            if isinstance(st, ast.Assign) and len(st.targets) == 1 and isinstance(st.targets[0], ast.Name):
+                for x in ast.walk(st.value):
+                    if isinstance(x, ast.Subscript) and isinstance(x.value, ast.Name) and x.value.id == MS_ and last_slice(x) is not None:
+                        mask_names[st.targets[0].id] = last_slice(x)
+                if any(isinstance(x, ast.Name) and x.id in per_interval for x in ast.walk(st.value)) and st.targets[0].id not in mask_names:
+                    per_interval.add(st.targets[0].id)
+        misaligned = []
+        for x in ast.walk(p.fn):
+            if isinstance(x, ast.BinOp) and isinstance(x.op, (ast.BitAnd, ast.BitOr, ast.Mult)):
+                sides = [x.left, x.right]
+                def slices(e):
+                    out = [mask_names[y.id] for y in ast.walk(e) if isinstance(y, ast.Name) and y.id in mask_names]
+                    out += [last_slice(y) for y in ast.walk(e) if isinstance(y, ast.Subscript) and isinstance(y.value, ast.Name) and y.value.id == MS_ and last_slice(y)]
+                    return out
+                for a, b in (sides, sides[::-1]):
+                    sa_ = slices(a)
+                    if sa_ and any(isinstance(y, ast.Name) and y.id in per_interval for y in ast.walk(b)) and not slices(b):
+                        misaligned += [(x, sl) for sl in sa_ if sl != '1:']
+        if misaligned:
+            x, sl = misaligned[0]
+            rep.bad('C08.P', f"{key}::F7-marks-combined-with-interval-quantities-end-the-intervals", where(m, x), {'slice': sl, 'expression': norm_text(x)[:80]},
+                    f"{key}: `{norm_text(x)[:60]}` combines the event marks sliced `[..., {sl}]` with a per-interval quantity (the lineage count): entry i of the lineage count is the "
+                    f"number of lineages BEFORE event i+1, so it must meet marks[..., 1:]; with `{sl}` every event is judged by the count after it (a coalescence that leaves one lineage "
+                    f"before an older tip is sampled is called impossible)")
         iv = f['interval_slices']
         ok_iv = bool(iv) and all(x in (('1:', ':-1'), ('2:', '1:-1')) for x in iv)
         rep.check('C08.P', f"{key}::F5-intervals-later-minus-earlier", ok_iv, W, f,
